@@ -99,6 +99,8 @@ def run_check(prop, tier):
         R.stats.setdefault('bodies_analysed', {})[cfg] = st['bodies']
         R.stats.setdefault('call_sites', {})[cfg] = st['call_sites']
         R.stats['tree_hash'] = ctx.f.j.get('tree_hash')
+        if ctx.f.aliases:
+            R.stats.setdefault('renamed_anchors_resolved_against_baseline', {})[cfg] = ctx.f.aliases
         try:
             mod.run(R, ctx)
         except AnchorError as e:
